@@ -5,6 +5,7 @@ import (
 	"math/rand"
 	"os"
 	"runtime"
+	"strings"
 	"sync"
 
 	segment "github.com/blevesearch/scorch_segment_api/v2"
@@ -102,6 +103,12 @@ func c18outcome(c *Ctx, tag string, p *c18plan, path string, err error, rng *ran
 			c.R.Fail("cancel-file-left", "%s: Merge returned the closed error but left a file of %d bytes", tag, len(readFile(path)))
 			return "bad"
 		}
+		if strings.HasSuffix(path, "/out.zap") {
+			if l := listDir(strings.TrimSuffix(path, "/out.zap")); len(l) > 0 {
+				c.R.Fail("cancel-file-left", "%s: Merge returned the closed error but left %v in the output directory", tag, l)
+				return "bad"
+			}
+		}
 		return "closed"
 	case err == nil:
 		if !left {
@@ -161,8 +168,8 @@ func c18(c *Ctx) {
 			if !ok {
 				return
 			}
-			path := c.Scratch.Path("c18")
-			defer os.Remove(path)
+			path, outDir := outPath(c, "c18")
+			defer os.RemoveAll(outDir)
 			bm := zx.Drops(p.drops, nil)
 			// uncancelled run: W callbacks
 			probe := &cancelAt{k: -1, ch: make(chan struct{})}
